@@ -83,6 +83,9 @@ pub struct StepThroughWithData {
 
     /// Whether or not the step-through is finished.
     finished: bool,
+
+    /// Whether or not the step-through has reported an error.
+    failed: bool,
 }
 
 impl std::fmt::Debug for StepThroughWithData {
@@ -122,6 +125,7 @@ impl StepThroughWithData {
             expected_reference_end,
             data,
             finished: false,
+            failed: false,
         })
     }
 
@@ -155,6 +159,21 @@ impl Iterator for StepThroughWithData {
     type Item = Result<(ContiguousIntervalPair, data::Record), Error>;
 
     fn next(&mut self) -> Option<Self::Item> {
+        // After an error the pointers are no longer meaningful, so nothing
+        // further is yielded.
+        if self.failed {
+            return None;
+        }
+
+        let item = self.step();
+        self.failed = matches!(item, Some(Err(_)));
+        item
+    }
+}
+
+impl StepThroughWithData {
+    /// Steps over the next data record.
+    fn step(&mut self) -> Option<<Self as Iterator>::Item> {
         let chunk = match self.data.next() {
             Some(c) => c,
             None => match self.finish() {
